@@ -22,8 +22,8 @@ HARNESSES = [
 ]
 JOBS = 8
 MANIFEST = {
-  'level_text': 'Bounded model checking of the aggregate writer of the Part 21 round trip: for aggregates of 0..3 symbolic string / integer elements STEPaggregate::STEPwrite and asStr emit "(" e1 "," ... ")" with every element exactly once, in order and unmodified (string elements byte for byte); together with the C09 string/enumeration/number harnesses (write(read(t)) == t per literal kind) this covers the value codecs of the round trip. Kernel level only.',
+  'level_text': 'Bounded model checking of the aggregate writer of the Part 21 round trip: for aggregates of 0..3 symbolic string / integer elements (integer elements set or unset) STEPaggregate::STEPwrite and asStr emit "(" e1 "," ... ")" with every element exactly once, in order and unmodified (string elements byte for byte; an unset integer element shows no value, in particular not its neighbour\'s); together with the C09 string/enumeration/number harnesses (write(read(t)) == t per literal kind) this covers the value codecs of the round trip. Kernel level only.',
   'level_note': 'Trusted: CBMC, ir2c, vstd. Outside: the STEPfile two-pass driver, header section, generated entity classes, SELECT, complex instances, comments, reals (decimal conversion uninterpreted), reading aggregates back (ReadValue), nested aggregates.',
   'technique': 'CBMC bounded model checking of IR-translated STEPaggregate/StringNode/IntNode writers with symbolic elements',
-  'design_ref': 'DESIGN.md section 3, C01',
+  'design_ref': 'DESIGN.md section 2, C01',
 }
